@@ -40,7 +40,7 @@ type C19MgrCase struct {
 }
 
 var c19mDirs = []string{"hidi-config/user/keyboard", "hidi-config/user/gamepad", "hidi-config/factory/keyboard", "hidi-config/factory/gamepad"}
-var c19mFiles = []string{"a.toml", "0_default.toml", "notes.txt", "a.toml.bak", ".pad.toml", "mytoml", "README"}
+var c19mFiles = []string{"a.toml", "0_default.toml", "notes.txt", "a.toml.bak", ".pad.toml", "mytoml", "README", "mine/b.toml", ".mine/c.toml"}
 
 func checkC19Mgr(c C19MgrCase) (nontrivial bool, v *harness.Violation) {
 	if st, err := os.Stat("/dev/input"); err != nil || !st.IsDir() {
@@ -88,6 +88,7 @@ func checkC19Mgr(c C19MgrCase) (nontrivial bool, v *harness.Violation) {
 				if _, err := os.Stat(p); err == nil {
 					continue
 				}
+				_ = os.MkdirAll(filepath.Dir(p), 0o755)
 				data := []byte("# some text\n# padding padding\n")
 				if strings.HasSuffix(f, ".toml") {
 					data = append([]byte("# 000000\n"), valid...)
